@@ -275,6 +275,7 @@ func ruleC06(w *World, r *Report) {
 		"R06.4 constructor shape: the list is the ordered, complete enumeration of the CIDR (start ip.Mask(mask), while Contains, inc) of private copies, a size check dominates the trim, the stored pool is list[1:len-1] (first = network, last = broadcast); LookupOrAllocIP: sticky (inventory hit returns it), refusal only on an empty pool, dequeues the head and records it under the same key, hands out a copy; DeallocIP returns exactly the session's recorded address and forgets it; " +
 		"R06.5 allocation trigger table (needAllocIP over all 256 flag values) and its use; R06.6 the deletion handler releases the address only after the datapath delete was accepted."
 	r.Explanation += " R06.7 the per-connection local-SEID generator is seeded from a source that differs between connections created together (nanosecond clock / crypto), because the shared pool is keyed by local SEID. R06.8 conservation across modifications: C05 R05.7, R05.10, R05.11 re-filed."
+	r.Explanation += " R06.9 every site that removes a session record releases the session's address on every path through it."
 	r.NotDecided = "in-range / exclusive / conserved as invariants over the runtime contents of the two containers (they follow from R06.1–R06.4 by an induction this checker does not mechanise); the carry arithmetic of inc()"
 
 	pool := map[string]bool{"freePool": true, "inventory": true}
